@@ -132,8 +132,10 @@ def _repl_newlines(e, f: Func) -> Tuple[Optional[int], str]:
 
 
 def run(model: RepoModel, rep, tier: str):
-    rep.not_decided = ("everything else in C12: invariance under renaming, reordering definitions, inserting no-ops, moving functions "
-                       "between files (relations between runs)")
+    rep.not_decided = ("invariance itself (a relation between two runs) for renaming, reordering definitions, inserting no-ops and moving "
+                       "functions between files; for these edits only two necessary conditions on the binding mechanism are decided "
+                       "(R3: the bound declaration is chosen by nesting, never by position in the file; R4: import paths follow re-exports "
+                       "and do not depend on the order units are visited in)")
     rep.rule("C12.R1", "every rewriter of the source text that runs before parsing preserves the line structure: a substitution whose "
                        "match can contain newlines re-emits as many, and a line-by-line rewriter emits exactly one line per input line", 4)
     rep.rule("C12.R2", "name-keyed state is created per unit (a consistent rename cannot collide across files)", 1)
@@ -259,12 +261,26 @@ def run(model: RepoModel, rep, tier: str):
                           "the same name got in a previously analysed file, so renaming it in one file changes bindings in the other")
 
 
+    # ------------------------------------------------------------------ R3 / R4 (shared with C05.R5 / C05.R7)
+    from . import c05
+    c05._r5(model, rep, "C12.R3")
+    c05._r7(model, rep, "C12.R4")
+
+
 # ---------------------------------------------------------------- self-test mutants
 def _t(old, new, count=1):
     return lambda src: __import__("sa.mutate", fromlist=["x"]).text_replace(src, old, new, count)
 
 
 MUTANTS = [
+    ("latest-declaration-wins", "core/resolver.py",
+     _t("nearest_scope_id = max(target_scope_ids)",
+        "nearest_scope_id = max(target_scope_ids, key = lambda scope_id: unit_symbol_decl_summary.scope_id_to_symbol_info[scope_id][symbol_name])"),
+     "C12.R3"),
+    ("re-export-edges-not-followed", "basics/import_hierarchy.py",
+     _t("                    children_list = util.graph_successors(self.import_graph, candidate_node.symbol_id)",
+        "                    children_list = util.graph_successors_with_weight(self.import_graph, candidate_node.symbol_id, IMPORT_GRAPH_EDGE_KIND.INTERNAL_SYMBOL)"),
+     "C12.R4"),
     ("php-comment-newlines-dropped", BASIC, _t("    code = re.sub(r'/\\*.*?\\*/', lambda m: '\\n' * m.group(0).count('\\n'), code, flags=re.DOTALL)", "    code = re.sub(r'/\\*.*?\\*/', '', code, flags=re.DOTALL)"),
      "remove_php_comments"),
     ("php-line-comment-eats-newline", BASIC, _t("    code = re.sub(r'//.*?\\n', '\\n', code)", "    code = re.sub(r'//.*?\\n', '', code)"), "remove_php_comments"),
